@@ -177,6 +177,28 @@ for _st in ("sole reference", "shared object"):
     scenario("delete_object: " + _st, F + "delete_object", ("C09", "C10", "C13", "C08"))(_delete(_st))
 
 
+def _dii(it):
+    """delete_if_invalid_object with a wrong size on an object stored without a pid."""
+    w = World(it)
+    ctx = it.ctx
+    om = objects.stored_object_metadata(it, w.self)
+    c = om.f["cid"].term
+    w.add_cid(c)
+    ctx.assume(T.is_Absent(C_of(w.fs0, c)))
+    size = VInt(z3.Int("wrong_size"))
+    ctx.assume(z3.And(size.term >= 1, size.term != om.f["obj_size"].term))
+    cs = sym_str("checksum")
+    ctx.assume(T.wsfree(cs.term))
+    sc = Sc(w, [w.self, om, cs, VStr("sha256"), size], pid=z3.StringVal("<no pid>"), cid=c)
+    sc.spec = objects.delete_if_invalid_object
+    sc.expect_raise = True
+    return sc
+
+
+scenario("delete_if_invalid_object: unreferenced object, wrong size",
+         F + "delete_if_invalid_object", ("C07",))(_dii)
+
+
 def _smeta(state):
     def f(it):
         w = World(it)
@@ -455,8 +477,12 @@ def run_steps(eng, lib, name):
             out = "return"
         except PyRaise as pr:
             out = "raise " + pr.exc.cls + (pr.exc.f.get("_origin") or "")
-        ctx.oblige(f"{tag}/completes-normally", z3.BoolVal(out == "return"), detail=out,
-                   props=("C09", "C10"))
+        if getattr(sc, "expect_raise", False):
+            ctx.oblige(f"{tag}/ends-with-the-mismatch-error",
+                       z3.BoolVal(out.startswith("raise NonMatching")), detail=out, props=("C07",))
+        else:
+            ctx.oblige(f"{tag}/completes-normally", z3.BoolVal(out == "return"), detail=out,
+                       props=("C09", "C10"))
         return {"function": fn, "case": name, "outcome": out, "events": state["n"]}
     return eng.explore(job, f"steps:{name}")
 
